@@ -1220,6 +1220,10 @@ impl<'b, T: El> Pair<'b, T> {
             if !d.is_empty() {
                 rep.violate("C15", format!("C15/vec/{}/double-drop", name), format!("ids {:?} (op {:?})", d, op));
             }
+            let g = ledger::take_garbage_drops();
+            if g > 0 {
+                rep.violate("C15", format!("C15/vec/{}/destructor-ran-on-a-slot-that-holds-no-value", name), format!("{} call(s) (op {:?})", g, op));
+            }
         }
     }
 
